@@ -35,4 +35,38 @@ def channelJ (j : Json) : Except String Json := do
   let u ← getRat j "u"
   pure <| Json.mkObj [("which", (channel rates u : Nat)), ("draws", (drawsPerCollapse rates.length : Nat))]
 
+/-- exact stand-in for the continuous weight: seg a b = g(b) / g(a) with g(t) = 1 + t² (segments compose) -/
+def segQ (a b : Rat) : Rat := if a == b then 1 else (1 + b * b) / (1 + a * a)
+
+/-- {"ops": [["init", t0, "clear" | "keep" | [times]], ["value", t], ["collapse", time, factor], ...]} run on a fresh
+`InfluenceMartingale`; one output per operation: the value, "ok" or "RuntimeError" -/
+def martingaleJ (j : Json) : Except String Json := do
+  let ops ← getArr j "ops"
+  let mut s : Mart Rat Rat := Mart.fresh
+  let mut out : Array Json := #[]
+  for op in ops do
+    let a ← op.getArr?
+    let kind ← (a[0]!).getStr?
+    if kind == "init" then
+      let t0 ← parseRat (← (a[1]!).getStr?)
+      let c : Cache Rat ← match a[2]! with
+        | .str "clear" => pure Cache.clear
+        | .str "keep" => pure Cache.keep
+        | .arr ts => do pure (Cache.times (← ts.toList.mapM fun x => do parseRat (← x.getStr?)))
+        | _ => throw "cache"
+      s := s.initialize segQ t0 c
+      out := out.push "ok"
+    else if kind == "value" then
+      let t ← parseRat (← (a[1]!).getStr?)
+      match s.value segQ t with
+      | none => out := out.push "RuntimeError"
+      | some (v, s') => s := s'; out := out.push (jRat v)
+    else
+      let t ← parseRat (← (a[1]!).getStr?)
+      let f ← parseRat (← (a[2]!).getStr?)
+      match s.addCollapse t f with
+      | none => out := out.push "RuntimeError"
+      | some s' => s := s'; out := out.push "ok"
+  pure (Json.arr out)
+
 end Qv.Drv.C16
